@@ -425,12 +425,20 @@ def dead_connection_case(seed):
     from . import c16
 
     rng = random.Random(seed)
-    kind = rng.choice(["connect-200", "terminate-pipelined", "h2c-404", "h2c-connect"])
+    kind = rng.choice(["connect-200", "terminate-pipelined", "h2c-404", "h2c-connect", "pipelined-reset"])
     d = rng.choice([0.0, 2.0])
     answer = [("recv",), ("sleep", d), ("send", {"type": "http.response.start", "status": 200, "headers": []}),
               ("send", {"type": "http.response.body", "body": b"hello", "more_body": False})]
     names = ()
-    if kind == "connect-200":
+    if kind == "pipelined-reset":
+        # a request is pipelined behind a streaming response, the client resets, the next write fails, the application
+        # returns on its disconnect (finding F64)
+        d = 2.0
+        answer = [("recv",), ("send", {"type": "http.response.start", "status": 200, "headers": []}),
+                  ("send", {"type": "http.response.body", "body": b"part", "more_body": True}), ("sleep", d),
+                  ("send", {"type": "http.response.body", "body": b"part2", "more_body": True}), ("recv",), ("return",)]
+        script = [("send", b"GET /a HTTP/1.1\r\nHost: x\r\n\r\nGET /b HTTP/1.1\r\nHost: x\r\n\r\n"), ("sleep", 1.0), ("reset",), ("sleep", 5.0)]
+    elif kind == "connect-200":
         script = [("send", b"CONNECT example.com:443 HTTP/1.1\r\nHost: example.com:443\r\n\r\n"), ("sleep", d + 1.0),
                   ("send", b"\x16\x03\x01tunnelled"), ("sleep", 1.0), ("eof",)]
     elif kind == "terminate-pipelined":
